@@ -95,3 +95,36 @@ def harvested_identifiers():
                     names.add(arg.arg)
     _IDS = sorted(n for n in names if re.fullmatch(r'[A-Za-z][A-Za-z0-9_-]*', n))
     return _IDS
+
+
+_WORDS = {}
+
+
+def harvested_words(rel='integrations/pygments_lexer.py'):
+    """Runs of letters and single spaces (4+ characters) inside the string literals of one pydiffx source file as it stands
+    now (for the lexer: the words its patterns look for), docstrings excluded: candidates for content that means something
+    to that code when it appears where it is not expected."""
+    if rel in _WORDS:
+        return _WORDS[rel]
+    import re
+    out = set()
+    try:
+        root = os.environ.get('DEVRUN_TREE') or lib.REPO      # DEVRUN_TREE: development triage of a scratch worktree only
+        tree = ast.parse(open(os.path.join(root, 'python', 'pydiffx', rel), encoding='utf-8').read())
+    except Exception:
+        tree = None
+    if tree is not None:
+        doc = set()
+        for node in ast.walk(tree):
+            if isinstance(node, (ast.FunctionDef, ast.ClassDef, ast.Module, ast.AsyncFunctionDef)):
+                b = getattr(node, 'body', [])
+                if b and isinstance(b[0], ast.Expr) and isinstance(getattr(b[0], 'value', None), ast.Constant):
+                    doc.add(id(b[0].value))
+        for node in ast.walk(tree):
+            if isinstance(node, ast.Constant) and isinstance(node.value, (str, bytes)) and id(node) not in doc:
+                t = node.value if isinstance(node.value, str) else node.value.decode('latin-1')
+                for m in re.finditer(r'[A-Za-z]+(?: [A-Za-z]+)*', t):
+                    if len(m.group(0)) >= 4:
+                        out.add(m.group(0))
+    _WORDS[rel] = sorted(out)[:80]
+    return _WORDS[rel]
